@@ -681,7 +681,7 @@ func TestVerifC13(t *testing.T) {
 	if r.Thorough() {
 		// the finding at the production constant: a plot is in progress, 1024 plot requests fill
 		// the channel, request 1025 blocks holding the lock, the finished plot cannot take it
-		script := []kAction{{Kind: "op", Op: "plot", WS: 1}, {Kind: "gate", Name: "idle", WS: -1}, {Kind: "gate", Name: "popped", WS: -1}, {Kind: "gate", Name: "step1.done", WS: -1}}
+		script := []kAction{{Kind: "op", Op: "plot", WS: 1}, {Kind: "gate", Name: "idle", WS: -1}, {Kind: "gate", Name: "queue.nonempty", WS: -1}, {Kind: "gate", Name: "popped", WS: -1}, {Kind: "gate", Name: "step1.done", WS: -1}}
 		for i := 0; i < 1025; i++ {
 			script = append(script, kAction{Kind: "op", Op: "plot", WS: 0})
 		}
